@@ -308,7 +308,9 @@ def _mod(n, d):
         return N(0)
     if abs(q - round(q)) <= 1e-9 * max(1.0, abs(q)):
         raise Und('MOD with a quotient one rounding error away from an integer')
-    return N(n - d * math.floor(q))
+    if (r < 0) != (d < 0):
+        r += d
+    return {N(n - d * math.floor(q)), N(r)}      # Excel's n - d*INT(n/d) in doubles, or the exactly reduced remainder
 
 
 def dec(x):
